@@ -204,23 +204,58 @@ func (fc *FnCtx) applyContract(st *State, ct *Contract, callee *ssa.Function, si
 		env.Macros[l.Name] = l.Expr
 	}
 	// bind parameters
-	if callee != nil {
-		for i, p := range callee.Params {
-			if i < len(args) {
-				env.Vars[p.Name()] = TVal{T: args[i].T, Ty: p.Type(), P: args[i].P}
-			}
-		}
+	if ct.Extern || ct.Trusted != "" {
+		fc.notes.Assumed["assumed contract (body not verified): "+ct.Key+" - "+ct.Trusted] = true
+	}
+	if callee != nil && len(callee.Params) == 0 && len(args) > 0 {
+		// a function without a body (another module): names come from the signature
 		sig = callee.Signature
-	} else {
 		off := 0
-		if ct.Iface {
-			env.Vars["self"] = TVal{T: args[0].T, Ty: nil}
+		if r := sig.Recv(); r != nil {
+			name := r.Name()
+			if name == "" || name == "_" {
+				name = "self"
+			}
+			env.Vars[name] = TVal{T: args[0].T, Ty: r.Type(), P: args[0].P}
+			env.Vars["self"] = env.Vars[name]
 			off = 1
 		}
 		for i := 0; i < sig.Params().Len(); i++ {
 			p := sig.Params().At(i)
 			if i+off < len(args) {
 				env.Vars[p.Name()] = TVal{T: args[i+off].T, Ty: p.Type(), P: args[i+off].P}
+				env.Vars[fmt.Sprintf("arg%d", i)] = env.Vars[p.Name()]
+			}
+		}
+	} else if callee != nil {
+		off := 0
+		if callee.Signature.Recv() != nil {
+			off = 1
+		}
+		for i, p := range callee.Params {
+			if i < len(args) {
+				env.Vars[p.Name()] = TVal{T: args[i].T, Ty: p.Type(), P: args[i].P}
+				if i >= off {
+					env.Vars[fmt.Sprintf("arg%d", i-off)] = env.Vars[p.Name()]
+				}
+			}
+		}
+		sig = callee.Signature
+	} else {
+		off := 0
+		if ct.Iface {
+			var rt types.Type
+			if r := sig.Recv(); r != nil {
+				rt = r.Type()
+			}
+			env.Vars["self"] = TVal{T: args[0].T, Ty: rt}
+			off = 1
+		}
+		for i := 0; i < sig.Params().Len(); i++ {
+			p := sig.Params().At(i)
+			if i+off < len(args) {
+				env.Vars[p.Name()] = TVal{T: args[i+off].T, Ty: p.Type(), P: args[i+off].P}
+				env.Vars[fmt.Sprintf("arg%d", i)] = env.Vars[p.Name()]
 			}
 		}
 	}
